@@ -760,6 +760,7 @@ class Sim(object):
         _SERMOD.os = _ForkOs()
         self.fork_rng = random.Random(seed * 7919 + 5)
         self.epipe_rng = random.Random(seed * 104729 + 11)
+        self.kw_rng = random.Random(seed * 15485863 + 7)
         self.forks_left = cfg.get('fork_budget', 1)
         S.createPoller = lambda t: NullPoller()
         install_virtual_time(self._battery_sleep)
@@ -1332,7 +1333,35 @@ class Sim(object):
     def live(self):
         return [p for p in self.procs.values() if not p.dead]
 
+    KWFORMS = {
+        # (target kind, method) -> names of the positional parameters (the first one of the user class carries the uid)
+        ('kv', 'put'): ('uid', 'k'), ('kv', 'cas'): ('uid', 'k', 'old'), ('kv', 'failif'): ('uid', 'mod'),
+        ('list', 'insert'): ('position', 'element'), ('list', 'remove'): ('element',), ('list', 'reset'): ('newData',),
+        ('dict', 'set'): ('key', 'value'), ('dict', 'setdefault'): ('key', 'default'), ('dict', 'pop'): ('key', 'default'),
+        ('set', 'remove'): ('item',), ('set', 'discard'): ('item',), ('set', 'add'): ('item',), ('counter', 'add'): ('value',),
+    }
+
     def gen_submit(self):
+        a = self.gen_submit_positional()
+        kw = self.cfg.get('kwcalls')
+        if a is None or not kw or self.kw_rng.random() >= kw:
+            return a
+        # the same call with its trailing arguments passed by keyword (the command then carries a dictionary too)
+        target = a[2]
+        kind = 'kv' if target == 'kv' else self.cfg.get('consumers', [])[target]
+        names = self.KWFORMS.get((kind, a[3]))
+        args = tuple(a[4])
+        if names is None or len(names) != len(args):
+            return a
+        keep = 1 if kind == 'kv' else self.kw_rng.randrange(0, len(args))       # (the uid placeholder stays positional)
+        if keep >= len(args):
+            return a
+        kwargs = dict(zip(names[keep:], args[keep:]))
+        if any(isinstance(v, str) and '$UID' in v or v == '$UID' or isinstance(v, (list, tuple)) and '$UID' in v for v in kwargs.values()):
+            return a
+        return ('S', a[1], target, a[3], args[:keep], kwargs)
+
+    def gen_submit_positional(self):
         rng = self.rng
         ps = self.live()
         if not ps:
